@@ -390,6 +390,10 @@ pub fn grid() -> Vec<Cell> {
 pub struct AcceptCase {
     pub cell: Cell,
     pub ipc: bool,
+    /// the library socket CONNECTS to a raw listener playing the cell's peer: the verdict goes
+    /// to the caller of connect()
+    #[serde(default)]
+    pub connect_side: bool,
 }
 
 pub fn accept_outcome(c: &AcceptCase) -> Outcome {
@@ -398,7 +402,12 @@ pub fn accept_outcome(c: &AcceptCase) -> Outcome {
     let mut o = Outcome::new(hash_of(c));
     let (admit, why) = c.cell.should_admit();
     o.nontrivial = !admit;
-    o.class(if admit { "accept-path-admitted" } else { "accept-path-rejected" });
+    o.class(match (c.connect_side, admit) {
+        (false, true) => "accept-path-admitted",
+        (false, false) => "accept-path-rejected",
+        (true, true) => "connect-path-admitted",
+        (true, false) => "connect-path-rejected",
+    });
     let c2 = c.clone();
     let (r, panics) = capture_panics(|| {
         realnet::run_net(async move {
@@ -407,6 +416,41 @@ pub fn accept_outcome(c: &AcceptCase) -> Outcome {
             let who = kind.name();
             let mut f: Vec<Failure> = vec![];
             let mut s = crate::sim::AnySocket::new(kind, None);
+            if c.connect_side {
+                let (l, ep) = match realnet::raw_listen().await {
+                    Ok(x) => x,
+                    Err(e) => {
+                        fail!(f, format!("C04/connect/{}/setup-listen", who), "{}", e);
+                        return f;
+                    }
+                };
+                let bytes = c.cell.peer_bytes();
+                let server = async {
+                    let mut rc = realnet::raw_accept(&l).await.ok()?;
+                    let _ = rc.write(&bytes).await;
+                    // a refused connection must be closed by the library; an admitted one is
+                    // simply kept open until the caller is done
+                    let ended = if admit { false } else { rc.await_end(LIMIT).await };
+                    Some((rc, ended))
+                };
+                let client = tokio::time::timeout(LIMIT, realnet::sock_connect(&mut s, &ep));
+                let (srv, res) = tokio::join!(server, client);
+                match res {
+                    Err(_) => fail!(f, format!("C04/connect/{}/connect-hangs", who), "connect() to a peer ({}) did not return within {:?}", why, LIMIT),
+                    Ok(Ok(())) if !admit => fail!(f, format!("C04/connect/{}/admits-invalid-peer", who), "{}: connect() returned Ok", why),
+                    Ok(Err(e)) if admit => fail!(f, format!("C04/connect/{}/valid-peer-refused", who), "connect() to a well-formed, compatible peer failed: {:?}", e),
+                    _ => {}
+                }
+                if !admit {
+                    if let Some((_, ended)) = srv {
+                        if !ended {
+                            fail!(f, format!("C04/connect/{}/rejected-connection-not-closed", who), "{}: connect() failed but the connection is still open {:?} later", why, LIMIT);
+                        }
+                    }
+                }
+                let _ = tokio::time::timeout(LIMIT, realnet::sock_close(s)).await;
+                return f;
+            }
             let mut monitor = realnet::sock_monitor(&mut s);
             let transport = if c.ipc { Transport::Ipc } else { Transport::TcpV4 };
             let ep = match realnet::sock_bind(&mut s, &transport.bind_text()).await {
@@ -499,7 +543,8 @@ pub fn accept_grid() -> Vec<AcceptCase> {
             cells.push(Cell { first, ..base.clone() });
         }
         for (i, cell) in cells.into_iter().enumerate() {
-            v.push(AcceptCase { cell, ipc: i % 3 == 2 });
+            v.push(AcceptCase { cell: cell.clone(), ipc: i % 3 == 2, connect_side: false });
+            v.push(AcceptCase { cell, ipc: false, connect_side: true });
         }
     }
     v
@@ -566,7 +611,7 @@ pub fn run(ctx: &Ctx) -> (Report, PropertyMeta) {
         ctx1.threads = 1;
         let ag = accept_grid();
         let r = run_cases(&ctx1, "accept", &ag, accept_outcome);
-        report.exhaustive_parts.push(format!("real bound sockets (TCP / IPC) with a monitor: 9 local types x every cell that differs from the all-valid one in at most one coordinate: {} scripted raw clients", ag.len()));
+        report.exhaustive_parts.push(format!("real bound sockets (TCP / IPC) with a monitor: 9 local types x every cell that differs from the all-valid one in at most one coordinate, on the accept side and on the connect side: {} scripted raw peers", ag.len()));
         report.merge(r);
         crate::realnet::cleanup_scratch();
     }
@@ -620,7 +665,7 @@ pub fn run(ctx: &Ctx) -> (Report, PropertyMeta) {
 
     let meta = PropertyMeta {
         level: "exploration",
-        rule: "exhaustive grid of scripted raw peers attached to real sockets through the real greeting/READY exchange (in-memory pipes): local type x announced Socket-Type x version x mechanism x signature x identity x first post-greeting item; all 144 SocketType::compatible queries; proptest decoration; and, over the REAL accept path (bound TCP / IPC sockets with a monitor installed), every cell that differs from the all-valid one in at most one coordinate: an admitted peer is reported as exactly one Accepted event, a refused one as exactly one AcceptFailed event and its connection is closed. Oracle: independent admission predicate from RFC 23 (signature ok, major version >= 3, mechanism known, first item READY, type known and compatible per the RFC table typed into the harness, identity <= 255); admitted -> Ok(id), id = announced identity or fresh and distinct from a second peer's, registered exactly once observed behaviourally per socket type (inbound messages once each, even rotation / routing / one copy / one subscription outbound); rejected -> Err, both connection halves dropped, later traffic never delivered, nothing written, sends behave as with no peer; library's own greeting/READY well-formed in every cell. Non-trivial = cell differs from the all-valid cell in at least one coordinate; distinct by cell".into(),
+        rule: "exhaustive grid of scripted raw peers attached to real sockets through the real greeting/READY exchange (in-memory pipes): local type x announced Socket-Type x version x mechanism x signature x identity x first post-greeting item; all 144 SocketType::compatible queries; proptest decoration; and, over the REAL accept path (bound TCP / IPC sockets with a monitor installed), every cell that differs from the all-valid one in at most one coordinate: an admitted peer is reported as exactly one Accepted event, a refused one as exactly one AcceptFailed event and its connection is closed; the same cells with the library on the CONNECT side of a raw listener: connect() returns Ok / Err accordingly, never hangs, and a refused connection is closed. Oracle: independent admission predicate from RFC 23 (signature ok, major version >= 3, mechanism known, first item READY, type known and compatible per the RFC table typed into the harness, identity <= 255); admitted -> Ok(id), id = announced identity or fresh and distinct from a second peer's, registered exactly once observed behaviourally per socket type (inbound messages once each, even rotation / routing / one copy / one subscription outbound); rejected -> Err, both connection halves dropped, later traffic never delivered, nothing written, sends behave as with no peer; library's own greeting/READY well-formed in every cell. Non-trivial = cell differs from the all-valid cell in at least one coordinate; distinct by cell".into(),
         assumptions: vec![
             "PLAIN and CURVE count as 'known mechanisms' as the statement says, although the library then runs the NULL handshake".into(),
             "STREAM is compatible with nothing (it does not speak ZMTP)".into(),
